@@ -198,6 +198,7 @@ fn run(cfg: usize, w: &mut Tape, env: &EnvRef) -> RunResult {
         pixel: false,
         encapsulated: false,
         all_undefined: false,
+        latin1: false,
     };
     let mut model = ds::gen_dataset(w, &gcfg);
     let (strategy, lazy, name) = match cfg {
